@@ -2,7 +2,8 @@
    the Endpoint value: protocol / Istcp selection, weight normalisation, the int32 conversions (Gen/Translated.v,
    tr_Parse_build) - computes the hand-written C18 model Endpoint.Parse.build, for every protocol string and every
    value of the flag variables. Not covered by the translation: strings.Fields, the flag package (modelled by hand,
-   tied by correspondence) and the cache key e.String() assigned after the translated statements. *)
+   tied by correspondence) and the cache key e.String() assigned after the translated statements.
+   Also: Endpoint2tars and Tars2endpoint (up to its cache key) against the model's endpoint2tars / tars2endpoint. *)
 From Coq Require Import List NArith ZArith Bool Lia ZifyBool.
 From TarsV Require Import Base.Hex Endpoint.Parse Xlate.GoSem Xlate.GoSemFacts Gen.Translated.
 Import ListNotations.
@@ -46,6 +47,37 @@ Corollary tr_Parse_build_fields : forall pr0 st e,
   go_endpoint_Endpoint_AuthType e = auth m.
 Proof.
   intros pr0 st e E. rewrite tr_Parse_build_equiv in E. inversion E; subst e. cbn. repeat split; reflexivity.
+Qed.
+
+(* ---------- the registry conversions: Endpoint2tars, and Tars2endpoint up to its cache key ---------- *)
+Definition ep_of_go (g : go_endpoint_Endpoint) : ep :=
+  {| host := go_endpoint_Endpoint_Host g; port := go_endpoint_Endpoint_Port g; timeout := go_endpoint_Endpoint_Timeout g;
+     istcp := go_endpoint_Endpoint_Istcp g; grid := go_endpoint_Endpoint_Grid g; qos := go_endpoint_Endpoint_Qos g;
+     weight := go_endpoint_Endpoint_Weight g; wtype := go_endpoint_Endpoint_WeightType g; auth := go_endpoint_Endpoint_AuthType g;
+     proto := go_endpoint_Endpoint_Proto g; bind := go_endpoint_Endpoint_Bind g; setid := go_endpoint_Endpoint_SetId g;
+     key := go_endpoint_Endpoint_Key g |}.
+Definition epf_of_go (f : go_endpointf_EndpointF) : epf :=
+  {| fhost := go_endpointf_EndpointF_Host f; fport := go_endpointf_EndpointF_Port f; ftimeout := go_endpointf_EndpointF_Timeout f;
+     fistcp := go_endpointf_EndpointF_Istcp f; fgrid := go_endpointf_EndpointF_Grid f; fqos := go_endpointf_EndpointF_Qos f;
+     fweight := go_endpointf_EndpointF_Weight f; fwtype := go_endpointf_EndpointF_WeightType f; fauth := go_endpointf_EndpointF_AuthType f;
+     fsetid := go_endpointf_EndpointF_SetId f |}.
+(* the Go registry structure for a model one: the fields the model does not have are zero (the code leaves them so) *)
+Definition go_of_epf (f : epf) : go_endpointf_EndpointF :=
+  {| go_endpointf_EndpointF_Host := fhost f; go_endpointf_EndpointF_Port := fport f; go_endpointf_EndpointF_Timeout := ftimeout f;
+     go_endpointf_EndpointF_Istcp := fistcp f; go_endpointf_EndpointF_Grid := fgrid f; go_endpointf_EndpointF_Groupworkid := 0;
+     go_endpointf_EndpointF_Grouprealid := 0; go_endpointf_EndpointF_SetId := fsetid f; go_endpointf_EndpointF_Qos := fqos f;
+     go_endpointf_EndpointF_BakFlag := 0; go_endpointf_EndpointF_Weight := fweight f; go_endpointf_EndpointF_WeightType := fwtype f;
+     go_endpointf_EndpointF_AuthType := fauth f |}.
+
+Theorem tr_Endpoint2tars_equiv : forall g : go_endpoint_Endpoint,
+  tr_Endpoint2tars g = Return (go_of_epf (endpoint2tars (ep_of_go g))).
+Proof. intros g. reflexivity. Qed.
+
+Theorem tr_Tars2endpoint_build_equiv : forall f : go_endpointf_EndpointF,
+  tr_Tars2endpoint_build f = Next (go_of_ep (tars2endpoint (epf_of_go f))).
+Proof.
+  intros f. unfold tr_Tars2endpoint_build, tars2endpoint. unfold k_endpoint_UDP. cbn [epf_of_go fistcp].
+  split_ifs; cbn [bindc]; try reflexivity; exfalso; lia.
 Qed.
 
 (* instance: "ssl", weight type 1 with the weight left at -1 and a port beyond int32 *)
